@@ -3,7 +3,8 @@
    the predicate of the statement: the descriptors marked with the packet direction or Bi are as many as
    the packet fields, carry the same ids in order, and every operator holds (equal: same bits and
    length; ignore; MSB(x): field at least x bits, first x bits equal the pattern, non-zero rule length
-   equals the field length; match-mapping: value among the mapped values); no-compression always.
+   equals the field length; match-mapping: value among the mapped values); no-compression always;
+   fragmentation never.
    Only statements; proofs in theories/SchcRules.v. *)
 From Coq Require Import ZArith List Bool.
 From MS Require Import PyBase Buffer Bits BufferAbs Schc SchcSpec SchcRules SchcBytes SchcRefine Compute ParserBytes ParserRefine ComputeBytes ComputeRefine ManagerBytes ManagerRefine.
@@ -20,6 +21,18 @@ Theorem c04_field pf rf : rfd_typed rf = true -> field_match pf rf = Ok (spec_fi
 Proof. exact (field_match_spec pf rf). Qed.
 Theorem c04_no_compression pd r : rule_nature r = NoCompression -> spec_rule_applies pd r = true.
 Proof. exact (nocompression_always_applies pd r). Qed.
+(* a fragmentation rule (RuleNature.FRAGMENTATION) is neither branch of the matcher's loop body: it does not apply, is not
+   yielded (whatever its descriptors: no typing premise), and the matcher behaves as if it were not in the rule set *)
+Theorem c04_fragmentation pd r : rule_nature r = Fragmentation -> spec_rule_applies pd r = false.
+Proof. exact (fragmentation_never_applies pd r). Qed.
+Theorem c04_fragmentation_rule pd r : rule_nature r = Fragmentation -> rule_matches pd r = Ok false.
+Proof. exact (fragmentation_never_matches pd r). Qed.
+Theorem c04_fragmentation_never_yielded rules pd r :
+  In r (gen_list (match_packet_descriptor rules pd)) -> rule_nature r <> Fragmentation.
+Proof. exact (fragmentation_never_yielded rules pd r). Qed.
+Theorem c04_fragmentation_skipped rules pd :
+  match_packet_descriptor rules pd = match_packet_descriptor (filter not_fragmentation rules) pd.
+Proof. exact (match_packet_descriptor_skips_fragmentation rules pd). Qed.
 
 (* composition with the byte-level Buffer model: the operators written with Buffer.__eq__, shift and dict lookup agree with the
    bit-level ones on canonical buffers of either padding side (same result, same exception) *)
@@ -46,11 +59,38 @@ Proof. exact (bmatch_packet_descriptor_lists rules pd). Qed.
 Theorem c04_rule_matches_bytes pd r : canon_pdesc pd -> canon_rule r ->
   brule_matches pd r = rule_matches (abs_pdesc abs pd) (abs_rule abs r).
 Proof. exact (brule_matches_refines pd r). Qed.
+(* the same at the byte level, for any buffers (canonical or not) *)
+Theorem c04_fragmentation_rule_bytes pd r : brule_nature r = Fragmentation -> brule_matches pd r = Ok false.
+Proof. exact (bfragmentation_never_matches pd r). Qed.
+Theorem c04_fragmentation_never_yielded_bytes rules pd r :
+  In r (gen_list (bmatch_packet_descriptor rules pd)) -> brule_nature r <> Fragmentation.
+Proof. exact (bfragmentation_never_yielded rules pd r). Qed.
+Theorem c04_fragmentation_skipped_bytes rules pd :
+  bmatch_packet_descriptor rules pd = bmatch_packet_descriptor (filter bnot_fragmentation rules) pd.
+Proof. exact (bmatch_packet_descriptor_skips_fragmentation rules pd). Qed.
+
+(* non-vacuity: a fragmentation rule whose descriptors would match (and an ill-typed one) is passed over *)
+Example c04_fragmentation_ex :
+  let f := mkfield (mkfid P_Other 1) [true] 0 in
+  let ok := mkrfd (mkfid P_Other 1) 0 0 Bi (TVbuf [true]) MO_msb LSB in
+  let bad := mkrfd (mkfid P_Other 1) 0 0 Bi (TVmap []) MO_equal NotSent in
+  let pd := mkpdesc Up [f] [] in
+  match_packet_descriptor [mkrule [true] Fragmentation [ok]; mkrule [false] Fragmentation [bad]; mkrule [true;true] Compression [ok]] pd
+    = GYield (mkrule [true;true] Compression [ok]) GDone /\
+  match_packet_descriptor [mkrule [false] Compression [bad]] pd = GRaise AssertionError.
+Proof. vm_compute. split; reflexivity. Qed.
 
 Print Assumptions c04_match.
 Print Assumptions c04_rule.
 Print Assumptions c04_field.
 Print Assumptions c04_no_compression.
+Print Assumptions c04_fragmentation.
+Print Assumptions c04_fragmentation_rule.
+Print Assumptions c04_fragmentation_never_yielded.
+Print Assumptions c04_fragmentation_skipped.
+Print Assumptions c04_fragmentation_rule_bytes.
+Print Assumptions c04_fragmentation_never_yielded_bytes.
+Print Assumptions c04_fragmentation_skipped_bytes.
 Print Assumptions c04_field_bytes.
 Print Assumptions c04_match_bytes.
 Print Assumptions c04_rule_matches_bytes.
